@@ -150,6 +150,7 @@ type Exec struct {
 	measures map[int]string
 	replayInputs []*inNode
 	callOrd  map[ssa.Instruction]callSite
+	monAcq     map[string]*State // monitor fields: the state right after the lock was taken
 	loopFrames map[int]map[string]loopFrame
 	aliasOf  map[string][]aliasEdge // ownership tracking: a phi's array is one of its incoming arrays
 	curBlock *ssa.BasicBlock
@@ -404,9 +405,12 @@ func (e *Exec) readAt(st *State, name string, ft types.Type, idx string) Val {
 				r.Origin = name
 			}
 			if _, isCh := ft.Underlying().(*types.Chan); isCh {
-				r.Origin = name
+				r.Origin, r.OriginBase = name, idx
 			}
 			if _, isIf := ft.Underlying().(*types.Interface); isIf {
+				r.Origin, r.OriginBase = name, idx
+			}
+			if _, isMap := ft.Underlying().(*types.Map); isMap {
 				r.Origin, r.OriginBase = name, idx
 			}
 			return r
@@ -426,7 +430,13 @@ func (e *Exec) readAt(st *State, name string, ft types.Type, idx string) Val {
 		}
 		if _, isCh := ft.Underlying().(*types.Chan); isCh {
 			r := vRef(t).withT(ft)
-			r.Origin = name
+			r.Origin, r.OriginBase = name, idx
+			return r
+		}
+		if _, isMap := ft.Underlying().(*types.Map); isMap {
+			// the contents of a map held in a protected field are protected like the field
+			r := vRef(t).withT(ft)
+			r.Origin, r.OriginBase = name, idx
 			return r
 		}
 		if t != "0" {
